@@ -290,8 +290,8 @@ def run_converter_case(ctx, rng, idx):
     dst_cls = make_dataclass(f"D{next(_n)}", [(i, int) for i in ids])
     cname_s, cname_d = pick(rng, CLASS_NAMES, USED["class_names"], 2)
     fname = pick(rng, FUNC_NAMES, USED["func_names"], 1)[0]
-    which = rng.choice(["class-names", "func-name", "stub-name", "field-ids-only", "link-function", "same-named-nested", "typeddict-keyword-dst", "link-function-name-pair", "hostile-constant", "builtin-named-object-vs-literal"])
-    if which in ("same-named-nested", "typeddict-keyword-dst", "link-function-name-pair", "hostile-constant", "builtin-named-object-vs-literal"):
+    which = rng.choice(["class-names", "func-name", "stub-name", "field-ids-only", "link-function", "same-named-nested", "typeddict-keyword-dst", "link-function-name-pair", "hostile-constant", "builtin-named-object-vs-literal", "generator-counter-names"])
+    if which in ("same-named-nested", "typeddict-keyword-dst", "link-function-name-pair", "hostile-constant", "builtin-named-object-vs-literal", "generator-counter-names"):
         ctx.count(f"converter_{which}")
         return run_converter_special(ctx, rng, which, ids)
     ctx.count(f"converter_{which}")
@@ -434,6 +434,38 @@ def run_converter_special(ctx, rng, which, ids):  # noqa: C901
         def check(o):
             return o.a == 0 and strict_eq(o.c, const) and o.y == want_y
         desc.update(builtin=bname, role=role, constant=repr(const))
+    elif which == "generator-counter-names":
+        # a user function / class NAMED like the names the generator numbers its own objects with (constant_0, func_0, accessor_0), registered
+        # BEFORE a constant without literal form, a functools.partial factory (no __name__) and an accessor of a TypedDict key: the user's name is
+        # data and must not collide with the generator's (seeded change: counter names registered without mangling -> 'Key constant_0 is duplicated')
+        import functools  # noqa: PLC0415
+
+        from adaptix.conversion import link_constant  # noqa: PLC0415
+
+        uname = rng.choice(["constant_0", "constant_1", "func_0", "func_1", "accessor_0", "constant_0_1"])
+        role = rng.choice(["link_function", "dst-class", "src-class", "factory"])
+        marker = object()
+        s_ = typing.TypedDict(uname if role == "src-class" else "S", {"a": int}) if rng.random() < 0.5 else make_dataclass(uname if role == "src-class" else "S", [("a", int)])
+        d_ = make_dataclass(uname if role == "dst-class" else "D", [("a", int), ("c", typing.Any), ("p", typing.Any), ("y", typing.Any, field(default=None))])
+
+        def f1(m, /):
+            return "from-function"
+        _rename(f1, uname)
+
+        def fac():
+            return "fresh"
+        _rename(fac, uname)
+        first = {"link_function": [link_function(f1, P[d_].y)], "factory": [link_constant(P[d_].y, factory=fac)]}.get(role, [link_constant(P[d_].y, value="plain")])
+        rest = [link_constant(P[d_].c, value=marker), link_constant(P[d_].p, factory=functools.partial(dict, k=1))]
+        recipe = first + rest if rng.random() < 0.7 else rest + first
+        with AU.armed():
+            made = attempt(get_converter, s_, d_, recipe=recipe)
+        src = {"a": 0} if isinstance(s_, type) and issubclass(s_, dict) else s_(0)
+        want_y = {"link_function": "from-function", "factory": "fresh"}.get(role, "plain")
+
+        def check(o):
+            return o.a == 0 and o.c is marker and o.p == {"k": 1} and o.y == want_y
+        desc.update(name=uname, role=role, order="user-object-first" if recipe[0] is first[0] else "generator-objects-first")
     elif which == "link-function-name-pair":
         base = rng.choice(["foo", "data", "coercer", "constant", ids[0]])
         s_ = make_dataclass("S", [("a", int)])
@@ -666,7 +698,18 @@ def _attributes_named_like_keywords(ctx):
                 ctx.violation(f"{what}-differs:attribute-named-like-keyword", f"fields {names} {what}: {ascii(o.value)}, expected {ascii(value)}", {"names": names})
 
 
-DIRECTED = {"attributes-named-like-keywords": _attributes_named_like_keywords, "keyword-keys-and-generated-names": _witnesses, "unnormalised-identifiers": _unnormalised_identifiers,
+def _converter_shapes_every_run(ctx):
+    """The converter shapes whose detection would otherwise rest on what the random stream draws (name, role and order are drawn inside the
+    shape): each runs under 48 fixed streams on every invocation."""
+    import random  # noqa: PLC0415
+
+    for which in ("generator-counter-names", "builtin-named-object-vs-literal", "link-function-name-pair"):
+        for i in range(48):
+            run_converter_special(ctx, random.Random(f"c19-directed/{which}/{i}"), which, ["a_", "b", "from_", "g_x"])
+            ctx.count("directed_converter_shapes")
+
+
+DIRECTED = {"converter-shapes-every-run": _converter_shapes_every_run, "attributes-named-like-keywords": _attributes_named_like_keywords, "keyword-keys-and-generated-names": _witnesses, "unnormalised-identifiers": _unnormalised_identifiers,
             "keys-of-str-and-int-subclasses": _keys_of_str_and_int_subclasses, "null-character-in-function-names": _null_character_in_function_names}
 from ..suite_leg import make as _suite_leg  # noqa: E402
 
